@@ -1798,6 +1798,7 @@ func (t *tScreen) collectEventsFromInput(buf *bytes.Buffer, expire bool) []Event
 		// so that the result does not depend on how the bytes were read.
 		if !keyPartial || expire {
 			if part, comp := t.parseFocus(buf, &res); comp {
+				t.escaped = false
 				continue
 			} else if part {
 				partials++
@@ -1809,12 +1810,14 @@ func (t *tScreen) collectEventsFromInput(buf *bytes.Buffer, expire bool) []Event
 
 		if t.ti.Mouse != "" {
 			if part, comp := t.parseXtermMouse(buf, &res); comp {
+				t.escaped = false
 				continue
 			} else if part {
 				partials++
 			}
 
 			if part, comp := t.parseSgrMouse(buf, &res); comp {
+				t.escaped = false
 				continue
 			} else if part {
 				partials++
@@ -1823,6 +1826,7 @@ func (t *tScreen) collectEventsFromInput(buf *bytes.Buffer, expire bool) []Event
 
 		if t.setClipboard != "" {
 			if part, comp := t.parseClipboard(buf, &res); comp {
+				t.escaped = false
 				continue
 			} else if part {
 				partials++
